@@ -552,7 +552,9 @@ def run_cover(unit, scratch, uws, timeout, mem):
            '--object-bits', str(unit.get('_object_bits', unit.get('object_bits', 8)))] + unit.get('cbmc_flags', [])
     if uws:
         cmd += ['--unwindset', ','.join(uws)]
-    solver = os.environ.get('VERIF_SOLVER') or unit.get('solver')
+    # the cover run is incremental (one solver call per goal): a unit may keep CBMC's built-in solver for it
+    # ("cover_solver": "default") while the main run uses an external one
+    solver = unit.get('cover_solver') or os.environ.get('VERIF_SOLVER') or unit.get('solver')
     if solver == 'kissat':
         cmd += ['--external-sat-solver', 'kissat']
     elif solver == 'cadical':
